@@ -37,7 +37,7 @@ def _active_atom(a, want, P=None):
 
 def r1_inert_handlers(ctx):
     ctx.set_rule('C09.R1')
-    for key, floor in ((EV + 'handle_message', 2), (EV + 'async_wakeup', 1)):
+    for key, floor in ((EV + 'handle_message', 1), (EV + 'async_wakeup', 1)):
         f = ctx.anchor(key)
         if not f:
             continue
@@ -68,11 +68,9 @@ def r2_transit_guard(ctx):
     sites = [(s.b, 'channel hand-over') for s in fwd] + steps
     if not ctx.floor('forward steps in the gate walk', len(sites), 2):
         return
-    for b, what in sites:
-        atoms = [a for _, a in f.guard_atoms(b)]
-        act = [a for a in atoms if a[0] == 'bool' and a[1][0] == 'call' and a[1][1].endswith('ModuleRef::is_active')]
-        ok = False
-        detail = [show_atom(a) for a in act]
+
+    def guarded(atoms):
+        act = [a for a in atoms if a and a[0] == 'bool' and a[1][0] == 'call' and a[1][1].endswith('ModuleRef::is_active')]
         for a in act:
             if a[2] is not True:
                 continue
@@ -85,10 +83,30 @@ def r2_transit_guard(ctx):
                 base = gate[1]
                 direct_next = base[0] == 'field' and base[1][0] == 'as' and base[1][1][0] == 'call' and base[1][1][1].endswith('Connection::next_hop')
                 if not direct_next:
-                    ok = True
-        ctx.check(ok, 'transit-guard',
-                  'gate walk (%s): a message only moves on while the owner of the gate it currently sits on is active (messages passing through a shut-down module are dropped)' % what,
-                  f.where(b), detail)
+                    return True, [show_atom(x) for x in act]
+        return False, [show_atom(x) for x in act]
+    # per turn of the walk loop: a turn that moves the message on (to the next hop, or into a channel) has seen the owner active
+    hdrs = sorted({innermost_loop(f, b) for b, _ in steps if innermost_loop(f, b) is not None})
+    n_adv = n_fwd = 0
+    for h in hdrs:
+        for path, outcome, decs in f.enum_paths(start=h, stop_at={h}):
+            if not consistent(f, path, decs):
+                continue
+            moved_on = outcome == 'stop'
+            handed = any(s.b in path for s in fwd)
+            if not (moved_on or handed):
+                continue
+            ctx.paths += 1
+            atoms = [a for _, a in path_atoms(f, path, decs)]
+            ok, detail = guarded(atoms)
+            what = 'channel hand-over' if handed else 'advance to the next hop'
+            n_adv += 0 if handed else 1
+            n_fwd += 1 if handed else 0
+            ctx.check(ok, 'transit-guard',
+                      'gate walk (%s): a message only moves on while the owner of the gate it currently sits on is active (messages passing through a shut-down module are dropped)' % what,
+                      f.where_path(path), detail)
+    ctx.floor('turns of the gate walk that advance to the next hop', n_adv, 1)
+    ctx.floor('turns of the gate walk that hand the message to a channel', n_fwd, 1)
 
 
 def peel_c(t):
